@@ -82,3 +82,10 @@ check(
     "Binner and local models are stubs (their own computations are scikit-learn's); joblib is a sequential map in two orders -- real thread schedules are not modelled; decision_function not covered.",
     "DESIGN.md 3.C08",
 )
+check(
+    "C10",
+    "bounded symbolic execution (SX, z3 LRA) of the real tree construction and traversals with one symbolic probability per (node, row); independent oracle traversal; concrete-mode replay",
+    "For 3/4 training rows (+1 fresh query row), three label pairs in any order, max_depth 1..3/4, min_samples_split/leaf settings, fit_improve_algo auto/none, and EVERY way the rows can fall on either side of every node (including probabilities exactly on the threshold and exactly 0.5): predict_proba is the terminal node's pair and sums to one, predict = classes_[p1>=0.5], decision_path marks exactly the root-to-terminal path, node indices distinct and < n_nodes_, get_leaves_index = sorted indices of nodes lacking a child (also after a refit of the same instance), depth <= max_depth, every node trained on exactly the rows routed to it with the binary target, batch == single row.",
+    "Node classifier is a stub (not a LinearClassifierMixin): the intercept_sort branches of fit_improve, gamma and p1p2 are outside the claim; sample weights not covered.",
+    "DESIGN.md 3.C10",
+)
